@@ -20,7 +20,6 @@ package PKGNAME
 import (
 	"fmt"
 	"math/bits"
-	"os"
 	"runtime"
 	"runtime/debug"
 	"strings"
@@ -349,9 +348,7 @@ func (a *vfC42Actor) step(i int, op vfC42Op) string {
 		if a.concurrent {
 			runtime.Gosched()
 		} else {
-			if os.Getenv("VF_C42_NOGC") == "" {
-				runtime.GC()
-			}
+			runtime.GC()
 			a.st.gcs++
 		}
 		return ""
@@ -664,6 +661,9 @@ func vfC42Labels(c *vfCase, st vfC42Stats) {
 }
 
 func TestVF_C42_Pools(t *testing.T) {
+	// one P: sync.Pool then serves a put buffer to the next matching get deterministically (reproducible cases, high
+	// reuse rate) and forced GC cycles do not pay for waking 16 Ps
+	defer runtime.GOMAXPROCS(runtime.GOMAXPROCS(1))
 	// The cases allocate large short-lived buffers; with the default pacing the heap stays tiny, every large buffer
 	// triggers a GC cycle and the scavenger returns its pages to the OS, so that page faults dominate the run time.
 	// Collect only when the heap reaches a fixed limit instead; explicit runtime.GC() ops (drawn) still exercise the
@@ -703,6 +703,7 @@ func TestVF_C42_Pools(t *testing.T) {
 }
 
 func TestVF_C42_PoolsConcurrent(t *testing.T) {
+	defer runtime.GOMAXPROCS(runtime.GOMAXPROCS(4))
 	// The cases allocate large short-lived buffers; with the default pacing the heap stays tiny, every large buffer
 	// triggers a GC cycle and the scavenger returns its pages to the OS, so that page faults dominate the run time.
 	// Collect only when the heap reaches a fixed limit instead; explicit runtime.GC() ops (drawn) still exercise the
